@@ -6,7 +6,8 @@ from harness.common import begin, F
 EXPLANATION = ("(A) the real Messaging + InProcessCommunicationLayer + Discovery are driven through every history of <= 6 "
                "operations {post(sender, destination, type), register the late destination, next_msg, shutdown}; message types "
                "(priorities) are SYMBOLIC integers, so the heap's tuple comparisons fork on them. (B) a real Agent (no thread) "
-               "gets <= 4 posts with symbolic types, then clean_shutdown(), then its _run loop is executed synchronously. "
+               "gets <= 4 posts with symbolic types, then clean_shutdown(), then its _run loop is executed synchronously; "
+               "(D) the _run loop runs first and a second actor posts / requests the clean shutdown at solver-chosen poll points. "
                "Oracle: every message posted before shutdown is handed over exactly once; at each hand-over the message has the "
                "lowest type among those queued, and among equal types of the same (sender, destination) the earliest posted; "
                "messages to the late destination are kept and delivered in order after its registration.")
@@ -15,7 +16,7 @@ ASSUMPTIONS = [
     "message types are integers in [0, 40]; 2 senders, 2 destinations (one registered late)",
     "time.sleep rebound to a no-op in pydcop.infrastructure.agents / communication (timing is not observed)",
 ]
-BOUNDS = {"quick": "(A) histories of <= 4 operations over 6 operation kinds; histories of <= 8 operations {post, single hand-over} between one sender and one destination with one symbolic type, (B) <= 3 posts", "thorough": "(A) histories of <= 5 operations, (B) <= 4 posts"}
+BOUNDS = {"quick": "(A) histories of <= 4 operations over 6 operation kinds; histories of <= 8 operations {post, single hand-over} between one sender and one destination with one symbolic type, (B) <= 3 posts, (D) <= 2 posts over <= 2 polls before the shutdown", "thorough": "(A) histories of <= 5 operations, (B) <= 4 posts, (D) <= 3 posts over <= 3 polls"}
 OUTSIDE = "thread interleavings inside post_msg/next_msg, the HTTP transport, remote destinations"
 CAP_S = {"quick": 900, "thorough": 7200}
 
@@ -28,7 +29,10 @@ def jobs(tier):
              "one_type": True},
             # two computations that both register late and write to each other before being registered
             {"name": "two-late-computations", "kind": "C", "length": 6 if tier == "quick" else 7},
-            {"name": "agent-clean-shutdown", "kind": "B", "posts": 3 if tier == "quick" else 4}]
+            {"name": "agent-clean-shutdown", "kind": "B", "posts": 3 if tier == "quick" else 4},
+            # the agent loop is already running (it may have polled an empty queue) when another thread posts and then asks
+            # for the clean shutdown: the other thread acts between two polls of the loop
+            {"name": "agent-running-shutdown", "kind": "D", "posts": 2 if tier == "quick" else 3, "polls": 2 if tier == "quick" else 3}]
 
 
 def _check_pop(eng, popped, queued, what):
@@ -52,6 +56,8 @@ def run(eng, p):
         return run_messaging(eng, p)
     if p["kind"] == "C":
         return run_two_late(eng, p)
+    if p["kind"] == "D":
+        return run_agent_running(eng, p)
     return run_agent(eng, p)
 
 
@@ -218,3 +224,72 @@ def run_agent(eng, p):
             continue
         remaining.remove(e[0])
         _check_pop(eng, e[0], remaining, "agent loop handled messages against priority / per-sender FIFO order")
+
+
+def run_agent_running(eng, p):
+    """Agent._run executed synchronously; a second actor (posts, then clean_shutdown) acts at the loop's poll points."""
+    from pydcop.infrastructure.agents import Agent
+    from pydcop.infrastructure.communication import InProcessCommunicationLayer
+    from pydcop.infrastructure.computations import MessagePassingComputation, Message, register
+    log = []
+
+    class Probe(MessagePassingComputation):
+        @register("tok")
+        def _h(self, s, msg, t):
+            log.append(("handle", msg.content))
+    agent = Agent("a1", InProcessCommunicationLayer())
+    for n in ("c0", "c1"):
+        c = Probe(n)
+        agent.add_computation(c)
+        c.start()
+    agent.run_computations = False
+    messaging = agent._messaging
+    real_next = messaging.next_msg
+    state = {"posts": 0, "polls": 0, "down": False}
+
+    def next_msg(timeout=0):
+        # the other thread runs here, between two polls
+        while not state["down"]:
+            can_post = state["posts"] < p["posts"]
+            must_stop = state["polls"] >= p["polls"]
+            opts = (["post"] if can_post else []) + ["shutdown"] + ([] if must_stop else ["poll"])
+            op = opts[eng.choose(len(opts), "op_%d_%d" % (state["polls"], state["posts"]))] if len(opts) > 1 else opts[0]
+            if op == "poll":
+                break
+            if op == "post":
+                i = state["posts"]
+                state["posts"] += 1
+                s, d = [("c0", "c1"), ("c1", "c0")][eng.choose(2, "route_%d" % i)]
+                t = eng.sym_int("type_%d" % i, 0, 40)
+                messaging.post_msg(s, d, Message("tok", i), t)
+                log.append(("post", (s, d, i, t)))
+            else:
+                agent.clean_shutdown()
+                state["down"] = True
+                log.append(("shutdown", None))
+        state["polls"] += 1
+        if state["polls"] > p["polls"] + p["posts"] + 4:
+            raise RuntimeError("agent loop still polling %d polls after the clean shutdown" % state["polls"])
+        return real_next(timeout)
+    messaging.next_msg = next_msg
+    try:
+        agent._run()
+    except Exception as e:
+        eng.notes["outcome"] = {"log": str(log), "exc": str(e)}
+        eng.fail("exception %s: %s" % (type(e).__name__, e), detail=traceback.format_exc(limit=-4))
+        return
+    eng.notes["outcome"] = {"log": [(k, v if k != "post" else v[:3]) for k, v in log]}
+    posted = [v for k, v in log if k == "post"]
+    handled = [v for k, v in log if k == "handle"]
+    eng.prove(state["down"] and not agent._running, "agent loop ended without a shutdown request", detail=str(log))
+    eng.prove(sorted(handled) == [v[2] for v in posted], "clean shutdown did not handle every queued message exactly once",
+              detail=str(eng.notes["outcome"]))
+    remaining = []
+    for k, v in log:
+        if k == "post":
+            remaining.append(v)
+        elif k == "handle":
+            e = [x for x in remaining if x[2] == v]
+            if e:
+                remaining.remove(e[0])
+                _check_pop(eng, e[0], remaining, "agent loop handled messages against priority / per-sender FIFO order")
